@@ -169,11 +169,14 @@ def run(ctx):
     # registry has generated as generic names but not handed out yet
     from adcgen.indices import Indices
     names = sorted(avail)
-    if quick:
-        names = ctx.rng.sample(names, 8)
-    for name in names:
+    generic_for = set(ctx.rng.sample(names, 8)) if quick else set(names)
+    # plain letters: variant v takes the (v + seed + position)-th remaining letter of the space, so that the variants of one
+    # intermediate walk through the whole alphabet of a space (thorough: all of it)
+    jobs = [(name, f"plain{v}") for name in names for v in range(ctx.pick(3, 8))] + \
+           [(name, "generic") for name in names if name in generic_for]
+    for name, flavour in jobs:
         it = avail[name]
-        rep = {"itmd": name}
+        rep = {"itmd": name, "names": flavour}
         try:
             it.expand_itmd()                       # advances the generic-name pool
             reg = Indices()
@@ -181,9 +184,15 @@ def run(ctx):
             used = set()
             for d_ in it.default_idx:
                 sp = "occ" if d_ in "ijklmno" else "virt"
-                pool = [n_ for n_ in reg._generic_indices[sp][""] if n_ not in used]
-                if not pool or ctx.rng.random() < 0.3:
-                    pool = [c_ + "7" for c_ in ("ijklmno" if sp == "occ" else "abcdefgh") if c_ + "7" not in used]
+                if flavour.startswith("plain"):
+                    # plain letters of the space other than the default ones where possible (a definition written with
+                    # hard-coded dummy letters must not capture them)
+                    letters = [c_ for c_ in ("ijklmno" if sp == "occ" else "abcdefgh") if c_ not in used]
+                    pool = [letters[(int(flavour[5:]) + ctx.seed + len(custom)) % len(letters)]]
+                else:
+                    pool = [n_ for n_ in reg._generic_indices[sp][""] if n_ not in used]
+                    if not pool or ctx.rng.random() < 0.3:
+                        pool = [c_ + "7" for c_ in ("ijklmno" if sp == "occ" else "abcdefgh") if c_ + "7" not in used]
                 custom.append(pool[0])
                 used.add(pool[0])
             cidx = "".join(custom)
